@@ -6,7 +6,6 @@ NA = {
  'C01': 'needs an independent formal semantics of HCL+cty as oracle; no per-function contract within reach states "the value the specification assigns" (DESIGN.md section 6)',
  'C03': 'a relation between two independent parsers and the decoder over every spec; no function has that relation as its postcondition (DESIGN.md section 6)',
  'C16': 'the inverse law runs through reflect-driven field walking (outside the verifiable subset), the generator, the scanner and the parser (DESIGN.md section 6)',
- 'C02': 'the contract-sized clause (ParseBody rejects every redefinition) needs a ghost local updated inside the loop body, which the contract language of this engine lacks; the rest (every rendering of every tree parses to the tree) is a relation over the Ragel-generated scanner and the whole parser with no per-function statement (DESIGN.md sections 1, 10.2)',
  'C05': 'a two-run relation (abstract vs every concrete evaluation) over all of expression evaluation and go-cty refinements; the only contract-sized kernel (the short-circuit closures) are anonymous package-level function literals with no stable name to attach a contract to (DESIGN.md sections 1, 10.2)',
  'C11': 'generate -> print -> scan -> parse -> evaluate round trip: the escaper and the Ragel-generated literal decoder need sequence-valued specifications outside this engine, the rest is a cross-function relation; the label read-back clause is decided under C12 (unit U8, findings F7a/F7b) (DESIGN.md sections 1, 10.2)',
  'C20': 'parser-vs-parser and printer-vs-parser relations; the only per-function fact is an identity that carries no risk (DESIGN.md section 6)',
